@@ -11,6 +11,7 @@ C text of the working tree on every run.
                                     running (gc->freelist non-NULL)                  (D22 repair)
   main_registers_atexit / main_tears_down_after_return : bool
                                     how the `main` wrapper arranges the collector's teardown
+  exception_error_exits    : bool   Exception_Error (uncaught exception) leaves only through exit()
   gc_life_shape            : bool   conjunction of the remaining fixed shapes (listed below); a
                                     shape that no longer matches makes it false and names itself
                                     in gc_life_shape_failed
@@ -134,6 +135,19 @@ def generate(repo, emit, src, func_body):
     emit('main_tears_down_after_return', None if not m else
          'Definition main_tears_down_after_return : bool := %s.   (* source: `main` macro calls Cello_Exit() after Cello_Main returned *)'
          % ('true' if after else 'false'))
+
+    # Exception_Error (uncaught exception) must end in exit() on EVERY path: exit handlers = teardown
+    ex = src('src/Exception.c')
+    eb = func_body(ex, r'static\s+void\s+Exception_Error\s*\(struct Exception\*\s*e\)\s*\{')
+    val = None
+    if eb:
+        flat = re.sub(r'\s+', ' ', eb)
+        ends = re.search(r'exit\(EXIT_FAILURE\); \}$', flat) is not None
+        other = re.search(r'\b(_Exit|_exit|abort|quick_exit|return|longjmp|raise|kill)\b', flat) is not None
+        nexit = len(re.findall(r'(?<![A-Za-z_])exit\(', flat))
+        val = 'true' if (ends and not other and nexit == 1) else 'false'
+    emit('exception_error_exits', None if val is None else
+         'Definition exception_error_exits : bool := %s.   (* source: Exception_Error ends in exit(EXIT_FAILURE), nothing else leaves it *)' % val)
 
     emit('gc_life_shape', 'Definition gc_life_shape : bool := %s.\n(* shapes that no longer match: %s *)'
          % ('true' if not failed else 'false', '; '.join(failed) if failed else 'none'))
